@@ -321,9 +321,104 @@ def loop_forms(ctx):
                 ctx.viol("loop:unexpected-attribute", f"/data/lp/{nm}/number carries {sorted(extra)}", {"klass": "loop", "md": md})
 
 
+NUMS = [3.14159265, 0.0174532925, 6371.0088, 1234567.25, 0.5, 46.9, 1e16, 12345678, 2.5e-7, 123456789.125, 99999.995, 7, 32.0, -0.000123456789]
+
+
+def numeric_cell_forms(ctx):
+    """Logic cells a spreadsheet stores as NUMBERS (typed without a quote): calculation = 3.14159265, bind::... = 1234567.25 ...  The bind carries
+    the number the author typed, digit for digit (shortest decimal text that reads back as the same number), in xlsx and xls alike."""
+    from ..render import canon_text
+    for i in range(32):
+        if not ctx.mine(i):
+            continue
+        rng = ctx.rng("num", i)
+        fmt = ("xlsx", "xls")[i % 2]
+        vals = rng.sample(NUMS, 5)
+        h = ["type", "name", "label", "calculation", "constraint", "relevant", "bind::jr:preload"]
+        rows = [["integer", "base", "Base", None, None, None, None]]
+        exp = {}
+        for j, v in enumerate(vals):
+            col = ("calculation", "constraint", "relevant", "calculation")[j % 4]
+            r = ["integer" if col != "calculation" else "calculate", f"n{j}", f"L{j}" if col != "calculation" else None, None, None, None, None]
+            r[h.index(col)] = v
+            rows.append(r)
+            exp[f"/data/n{j}"] = ({"calculation": "calculate"}[col] if col == "calculation" else col, canon_text(v))
+        sheets = {"survey": (h, rows)}
+        o = drive.convert_sheets(sheets, fmt=fmt)
+        ctx.case(sig=f"numeric|{fmt}|{sorted(map(str, vals))}")
+        ctx.ctr("numeric_cell_forms")
+        wit = {"klass": "numeric", "i": i, "fmt": fmt, "values": [repr(v) for v in vals]}
+        if not o.ok:
+            ctx.viol("numeric:rejected", f"a form with number-typed logic cells was refused: {o.brief()}", wit)
+            continue
+        p = xf.Parsed(o.xform)
+        binds = {b.get("nodeset"): p.attr_dict(b) for b in p.binds()}
+        for ns, (attr, want) in exp.items():
+            g = (binds.get(ns) or {}).get(attr)
+            ctx.ctr("logic_cells_checked")
+            if g != want:
+                ctx.viol(f"numeric:{attr}:number-not-as-typed", f"{fmt}: bind {ns} @{attr} = {g!r}; the cell holds the number {want}", wit)
+
+
+def _bind_table(xform):
+    p = xf.Parsed(xform)
+    return {b.get("nodeset"): p.attr_dict(b) for b in p.binds()}
+
+
+def thread_pass(ctx):
+    """Several different forms converted at the same time in threads of one process (a service converting uploads in a pool): each form's binds are
+    the ones it gets when converted alone - nothing missing, nothing borrowed from a row of the form next door."""
+    import sys
+    import threading
+    rounds = 4 if ctx.tier == "quick" else 30
+    rng = ctx.rng("threads", ctx.shard)
+    forms = [make_form(rng, 9000 + ctx.shard * 10 + k, ctx.tier) for k in range(3)]
+    alone = [drive.convert_sheets(f.to_sheets(), args=f.args) for f in forms]
+    if not all(o.ok for o in alone):
+        ctx.ctr("thread_form_rejected")
+        return
+    ref = [_bind_table(o.xform) for o in alone]
+    old = sys.getswitchinterval()
+    sys.setswitchinterval(1e-5)
+    try:
+        for rnd in range(rounds):
+            res = {}
+            bar = threading.Barrier(len(forms))
+
+            def work(k):
+                try:
+                    bar.wait(timeout=30)
+                except threading.BrokenBarrierError:
+                    pass
+                res[k] = drive.convert_sheets(forms[k].to_sheets(), args=forms[k].args)
+            ts = [threading.Thread(target=work, args=(k,)) for k in range(len(forms))]
+            for t_ in ts:
+                t_.start()
+            for t_ in ts:
+                t_.join(120)
+            ctx.ctr("concurrent_conversion_rounds")
+            ctx.case(sig=f"threads|{ctx.shard}|{rnd}")
+            for k, f in enumerate(forms):
+                o = res.get(k)
+                if o is None or not o.ok:
+                    ctx.viol("threads:conversion-failed-beside-others", f"round {rnd}: form {k} converted beside two others failed: {o.brief()[:160] if o is not None else 'no result'}", common.witness(f, klass="threads"))
+                    return
+                got = _bind_table(o.xform)
+                ctx.ctr("binds_compared", len(got))
+                if got != ref[k]:
+                    ns = next((n for n in ref[k] if got.get(n) != ref[k][n]), None) or next(iter(set(got) - set(ref[k])), None)
+                    ctx.viol("threads:binds-differ-from-conversion-alone", f"round {rnd}: form {k} converted beside two others: bind {ns} is {got.get(ns)}, alone it is {ref[k].get(ns)}",
+                             common.witness(f, klass="threads"))
+                    return
+    finally:
+        sys.setswitchinterval(old)
+
+
 def run_shard(ctx):
     pl = plan(ctx.tier, ctx.seed)
     loop_forms(ctx)
+    thread_pass(ctx)
+    numeric_cell_forms(ctx)
     for i in range(pl["n"]):
         if not ctx.mine(i):
             continue
@@ -356,6 +451,12 @@ def replay(w):
     def chk(ctx, wit):
         if wit.get("klass") == "loop":
             loop_forms(ctx)
+            return
+        if wit.get("klass") == "threads":
+            thread_pass(ctx)
+            return
+        if wit.get("klass") == "numeric":
+            numeric_cell_forms(ctx)
             return
         check(ctx, common.form_from_witness(wit), "replay")
     return common.replay_with(PROP, w, chk)
